@@ -1,3 +1,3 @@
-import Holpy.Common.Sexp
-/- stub: replaced when the C13 model is built -/
-def main : IO Unit := Holpy.lineLoop (fun _ => "bad-op")
+import Holpy.C13.Wire
+/- Driver of the C13 model: see Holpy/C13/Wire.lean for the line protocol. -/
+def main : IO Unit := Holpy.lineLoop Holpy.C13.Wire.handle
